@@ -117,11 +117,14 @@ def c13(ctx):
                     # with other, longer content
                     ctx.counters['cli-runs-into-used-directories'] += 1
                     for l in tools.LANGS:
-                        for fn, data in base[l].items():
+                        for fi, (fn, data) in enumerate(sorted(base[l].items())):
                             fp = os.path.join(wd, 'out_' + l, fn)
                             os.makedirs(os.path.dirname(fp), exist_ok=True)
                             with open(fp, 'wb') as fh:
-                                fh.write(b'stale\n' + data[::-1] + b'\nstale tail of an earlier, longer revision\n' * 8)
+                                if (fi + k // 2) % 2:
+                                    fh.write(data[::-1])      # other content of exactly the SAME size
+                                else:
+                                    fh.write(b'stale\n' + data[::-1] + b'\nstale tail of an earlier, longer revision\n' * 8)
                 rc, log, trees = cli_compile(ctx, text, tools.LANGS, wd)
                 if rc != 0:
                     ctx.counters['cli-nonzero'] += 1
@@ -129,6 +132,17 @@ def c13(ctx):
                     break
                 if base is None:
                     base = trees
+                    # "independent of process": the helper process has compiled many other protocols before this one, the CLI process none
+                    inproc = ctx.vapi.compile(text, tools.LANGS)
+                    for l in tools.LANGS:
+                        if l not in inproc['files']:
+                            continue
+                        ctx.evaluated(1, key=(p.tag, l, 'inproc-vs-cli'))
+                        ctx.counters['in-process-vs-fresh-process-comparisons'] += 1
+                        d = tree_diff(trees[l], inproc['files'][l])
+                        if d:
+                            triage(ctx, 'C13', l, p, text, 'nondeterministic-output', 'a fresh CLI process and the long-running helper process (which compiled other protocols before) differ in %s: %s' % (
+                                d[:5], first_line_diff(trees[l].get(d[0][1:], b''), inproc['files'][l].get(d[0][1:], b''))), {'dsl': text, 'lang': l, 'diffs': d, 'mode': 'inproc-vs-cli'})
                 else:
                     for l in tools.LANGS:
                         ctx.evaluated(1, key=(p.tag, l, 'cli'), nontrivial=len(p.packets) >= 2)
@@ -165,6 +179,15 @@ def c14(ctx):
     pool += [p for p in gen.matrix_protos() if p.tag.startswith(('Mf', 'Md', 'Mp'))][:(12 if quick else 80)]
     pool += [p for p in gen.matrix_protos() if p.tag.startswith(('Mm', 'Ml'))][::(4 if quick else 1)]
     pool += [p for p in gen.matrix_protos() if p.tag.startswith('Mi')]     # identifier shapes: case conversion must not depend on what ran before
+    from .checks_wire import ident_protos
+    pool += ident_protos(0)          # packet names that are not UpperCamel: a generator that "normalises" names in the shared model shows here
+    import copy
+    for q in [p for p in gen.matrix_protos() if p.tag.startswith('Mm')][:2] + [p for p in gen.matrix_protos() if p.tag.startswith('Mo')][:1]:
+        q = copy.deepcopy(q)         # no root packet: some generators refuse such a model - they must refuse it whatever ran before
+        for pk in q.packets:
+            pk.root = False
+        q.tag = q.tag + 'nr'
+        pool.append(q)
     gens = snaps = 0
     # one helper process per target that never runs any other generator: the only baseline that process-wide state left behind by
     # another generator (package-level caches, library configuration) cannot reach
@@ -357,6 +380,41 @@ def c08(ctx):
             if len(ctx.cov['samples']) < 4 and nontrivial and rs['name'] in ('random-half', 'all-sites'):
                 ctx.sample({'rewrite': rs['name'], 'layout': style, 'canonical': text0[:700], 'variant': text[:900]})
     ctx.cov['variants_per_rewrite_set'] = per_set
+    # explicit default versus none for the options whose default is the EMPTY string (package / module names)
+    import copy
+    nemp = 0
+    for p in pool[::(20 if quick else 4)]:
+        none = copy.deepcopy(p)
+        for k in ('JavaPackage', 'GoPackage', 'GoModule'):
+            none.options.pop(k, None)
+        none.force_options_block = True
+        t_none = dslprint.render(none)
+        r_none = ctx.vapi.compile(t_none, tools.LANGS)
+        if r_none.get('syn_err') or r_none.get('diags') or not r_none.get('parsed'):
+            continue
+        for which in (('JavaPackage',), ('GoPackage',), ('GoModule',), ('JavaPackage', 'GoPackage', 'GoModule')):
+            expl = copy.deepcopy(none)
+            for k in which:
+                expl.options[k] = '""'
+            t_expl = dslprint.render(expl)
+            r = ctx.vapi.compile(t_expl, tools.LANGS)
+            nemp += 1
+            ctx.evaluated(1, key=(p.tag, 'explicit-empty', which))
+            if r.get('syn_err') or r.get('diags') or not r.get('parsed'):
+                triage(ctx, 'C08', 'all', p, t_none, 'variant-rejected', 'explicit %s = "" is rejected while the text without the option is accepted: %s %s' % (which, r.get('diags'), r.get('syn_err')),
+                       {'canonical': t_none, 'variant': t_expl, 'rewrite': 'explicit-empty-default'})
+                continue
+            for l in tools.LANGS:
+                if (l in r_none['files']) != (l in r['files']):
+                    triage(ctx, 'C08', l, p, t_none, 'generator-outcome-differs', 'explicit %s = "": generator %s succeeds on one text only' % (which, l), {'canonical': t_none, 'variant': t_expl, 'lang': l})
+                    continue
+                if l not in r['files']:
+                    continue
+                d = tree_diff(r_none['files'][l], r['files'][l])
+                if d:
+                    triage(ctx, 'C08', l, p, t_none, 'output-differs', 'explicit %s = "" versus no such option: %s differs: %s' % (which, d[:3], first_line_diff(r_none['files'][l].get(d[0][1:], b''), r['files'][l].get(d[0][1:], b''))),
+                           {'canonical': t_none, 'variant': t_expl, 'rewrite': 'explicit-empty-default', 'lang': l, 'diff': d})
+    ctx.cov['explicit_empty_default_variants'] = nemp
     ctx.cov['base_protocols'] = len(pool) - skipped
     probes(ctx, 'C08')
 
